@@ -16,12 +16,7 @@ use verif_harness::sim::{Cfg, Sim};
 
 fn main() {
     let args: Vec<String> = std::env::args().collect();
-    let rt = tokio::runtime::Builder::new_current_thread()
-        .enable_time()
-        .start_paused(true)
-        .build()
-        .unwrap();
-    let _g = rt.enter();
+    let _g = verif_harness::sim::rt().enter();
     // panics of the code under test are data, not noise
     std::panic::set_hook(Box::new(|_| {}));
     match args.get(1).map(String::as_str) {
@@ -212,9 +207,13 @@ fn random_cfg(rng: &mut SmallRng, mode: &str) -> Cfg {
         rwnd: rng.random_range(1..=if wide { 4 } else { 3 }),
         thr: rng.random_range(1..=if wide { 6 } else { 4 }),
         accept_cap: rng.random_range(1..=2),
-        dg_cap: rng.random_range(1..=2),
+        // datagram bursts need room: up to five datagrams can wait at the receiver in the datagram modes
+        dg_cap: if mode == "dgram" || mode == "all" { pick(rng, &[1usize, 1, 2, 2, 3, 4, 5]) } else { rng.random_range(1..=2) },
         bind_cap: if mode == "bind" || mode == "all" { rng.random_range(0..=2) } else { 0 },
         retries: rng.random_range(1..=3),
+        // keepalive: values as given to the options API (a timeout below the interval is clamped by the builder)
+        ka_i: if mode == "ka" { rng.random_range(1..=3) } else { 0 },
+        ka_t: if mode == "ka" { pick(rng, &[0u64, 1, 2, 2, 3, 3, 4, 5, 6]) } else { 0 },
     }
 }
 
@@ -341,6 +340,10 @@ fn random_trace(mode: &str, rng: &mut SmallRng, steps: usize) -> Sim {
     let mut opened = [0usize; 2];
     let mut nfaults = 0usize;
     let mut last_fault_ep = 0usize;
+    // keepalive mode: time advances; from a random point on endpoint B is "dead" (its task is not polled and its
+    // application does nothing, while the transport stays healthy), so that A has to detect it
+    let ka = mode == "ka";
+    let freeze_at = if ka && rng.random_range(0..4) != 0 { rng.random_range(0..steps.max(1)) } else { usize::MAX };
     let mut total_writes = 0usize;
     let write_budget = if mode == "fair" { (cfgs[0].rwnd.max(cfgs[1].rwnd) as usize + 2) * 2 } else { usize::MAX };
 
@@ -370,7 +373,13 @@ fn random_trace(mode: &str, rng: &mut SmallRng, steps: usize) -> Sim {
         }
         // candidate operations with weights
         let mut cands: Vec<(u32, Value)> = Vec::new();
+        if ka {
+            cands.push((5, json!({"op": "advance", "d": pick(rng, &[1u64, 1, 1, 2, 3])})));
+        }
         for i in 0..2 {
+            if i == 1 && step >= freeze_at {
+                continue;
+            }
             let e = en(i);
             if sim.task_alive(i) {
                 cands.push((6, json!({"op": "task", "e": e, "gr": 1, "gs": 0})));
@@ -408,8 +417,8 @@ fn random_trace(mode: &str, rng: &mut SmallRng, steps: usize) -> Sim {
                 if dgrams {
                     let hostlen = pick(rng, &[0u32, 1, 2, 255, 256, 300]);
                     let datalen = pick(rng, &[0u32, 1, 2, 3, 4, 5, 100]);
-                    cands.push((2, json!({"op": "dg_send", "e": e, "id": pick(rng, &[0u32, 1, 7]), "hostlen": hostlen, "port": pick(rng, &[0, 53, 65535]), "datalen": datalen})));
-                    cands.push((2, json!({"op": "dg_get", "e": e})));
+                    cands.push((if mode == "dgram" { 4 } else { 2 }, json!({"op": "dg_send", "e": e, "id": pick(rng, &[0u32, 1, 7]), "hostlen": hostlen, "port": pick(rng, &[0, 53, 65535]), "datalen": datalen})));
+                    cands.push((if mode == "dgram" { 1 } else { 2 }, json!({"op": "dg_get", "e": e})));
                 }
                 if binds {
                     if sim.eps[i].binds.len() < 2 {
@@ -510,6 +519,19 @@ fn random_trace(mode: &str, rng: &mut SmallRng, steps: usize) -> Sim {
                     }
                 }
                 _ => {}
+            }
+        }
+    }
+    if ka && freeze_at != usize::MAX && !sim.dead {
+        // the peer stays dead while time passes second by second and A's task is polled promptly: A must give up
+        // exactly at the tick the specification says (or never, when its timeout is off)
+        let horizon = cfgs[0].ka_t.max(cfgs[0].ka_i) + cfgs[0].ka_i + 2;
+        for _ in 0..horizon {
+            sim.exec(&json!({"op": "advance", "d": 1}));
+            for _ in 0..2 {
+                if sim.task_alive(0) {
+                    sim.exec(&json!({"op": "task", "e": "A", "gr": 1, "gs": 1}));
+                }
             }
         }
     }
